@@ -576,7 +576,7 @@ func needsSingleQuoting(s string) bool {
 // for those of [shouldQuote].
 func quoteScalar(s string) string {
 	switch {
-	case needsSingleQuoting(s) && !yamlUnprintable(s):
+	case needsSingleQuoting(s) && !yamlUnprintable(s) && !strings.ContainsRune(s, '\n'):
 		// Single quotes cannot escape anything: strings with characters
 		// that need escaping fall through to double quotes.
 		return singleQuoted(s)
